@@ -290,6 +290,9 @@ def build_config(topo):
 
 # ----------------------------------------------------------------------------------------------------- world
 
+REST_S = 0.6       # a ball that entered a device rests there at least this long (switch counts settle in 0.5 s)
+
+
 class Dev:
     def __init__(self, name, kind, cap, switches, coil, target, content):
         self.name, self.kind, self.cap, self.switches = name, kind, cap, switches
@@ -300,6 +303,7 @@ class Dev:
         self.window = 0.0          # entrance_switch_ignore_window_ms of an entrance-counted lock
         self.lane_next = {}        # lane switch -> time from which the next ball may pass it
         self.lane_rr = 0
+        self.last_enter = -10.0    # when the last ball came to rest in it
 
 
 class World:
@@ -408,6 +412,7 @@ class World:
             self.classes.add("another ball entered a device during its eject")
         self.changes += 1
         d.content += 1
+        d.last_enter = self.now()
         self.note("enter", d.name, d.content)
         if d.kind == "switch":
             self._sync(d)
@@ -609,6 +614,10 @@ class World:
         d = self.devs.get("bd_lock")
         if not d or d.kind != "entrance" or d.content < d.cap or self.loose <= 0:
             return False
+        if d.leaving:
+            return False        # the device is kicking its ball out right now: it is not a full device at rest
+        if self.calm and self.mdev and self.mdev[d.name].state in ("ejecting", "ball_left", "failed_confirm"):
+            return False        # calm mode: nothing touches the entrance of a device during that device's own eject
         t = self.now()
         if t < d.next_entry:
             return False
@@ -621,6 +630,8 @@ class World:
         d = self.devs["bd_launcher"]
         if d.content <= 0 or d.leaving:
             return False
+        if self.now() < d.last_enter + REST_S:
+            return False        # the player plunges a ball that has come to rest (and has been counted), not one still arriving
         d.leaving = True
         if weak:
             self.classes.add("weak manual plunge (ball returns)")
@@ -634,6 +645,8 @@ class World:
         d = self.devs[name]
         if d.kind != "switch" or d.content < n or d.leaving:
             return False
+        if self.now() < d.last_enter + REST_S:
+            return False        # balls that bounce out again before they could be counted never were in the device
         for _ in range(n):
             self._leave(d)
             if d.target == "playfield_upper":
